@@ -126,6 +126,14 @@ class IOSim:
             self.fin_events += 1
             return None
         pl = self.plan
+        if pl is not None and self.fired is not None and pl.get("persist") and pl["kind"] == "oserror_write" \
+                and name in APPLICABLE["oserror_write"]:
+            # a full disk stays full: every further write of the operation fails as well (the
+            # flush inside close() among them), until the operation is over
+            self.sha.update(b"FAULT|oserror_write|again\n")
+            self.refired = getattr(self, "refired", 0) + 1
+            code = pl.get("errno", errno.ENOSPC)
+            raise OSError(code, os.strerror(code) + " (simulated, persistent)")
         if pl is not None and self.fired is None and self.op_ev >= pl["at"] \
                 and name in APPLICABLE[pl["kind"]]:
             kind = pl["kind"]
